@@ -111,6 +111,7 @@ func runC17(c *an.Ctx, p *an.Prog, thorough bool) {
 }
 
 func c173(c *an.Ctx, p *an.Prog) {
+	c17Selected = map[string]*ssa.Function{}
 	ns := p.Func("/cmd/whawty-auth", "NewStore")
 	npp := p.Func("/cmd/whawty-auth", "NewPasswordPolicy")
 	if !need(c, "C17.3", ns, "main.NewStore") || !need(c, "C17.3", npp, "main.NewPasswordPolicy") {
@@ -294,6 +295,12 @@ func c173(c *an.Ctx, p *an.Prog) {
 					bad = append(bad, "kind "+kind+": no comparison function stored in the policy")
 				} else {
 					kinds[kind] = cond.StripConv().Aux
+					if f, ok := cond.StripConv().V.(*ssa.Function); ok {
+						if old := c17Selected[kind]; old != nil && old != f {
+							bad = append(bad, "kind "+kind+" selects different comparison functions on different paths")
+						}
+						c17Selected[kind] = f
+					}
 				}
 				if thr == nil || pu == nil || thr.K != extractOf(pu, 0).K {
 					bad = append(bad, "kind "+kind+": threshold is not the parsed number")
@@ -302,10 +309,10 @@ func c173(c *an.Ctx, p *an.Prog) {
 				bad = append(bad, "returned policy is not the local struct")
 			}
 		})
-		want := map[string]string{"score": mainPkg + ".zxcvbnConditionScore", "entropy": mainPkg + ".zxcvbnConditionEntropy", "time": mainPkg + ".zxcvbnConditionTime"}
-		for k, w := range want {
-			if kinds[k] != w {
-				bad = append(bad, fmt.Sprintf("kind %q selects %s, expected %s", k, kinds[k], shortName(w)))
+		// which function each kind selects is checked for what it compares in C17.4
+		for _, k := range []string{"score", "entropy", "time"} {
+			if c17Selected[k] == nil {
+				bad = append(bad, fmt.Sprintf("kind %q selects no comparison function (%s)", k, kinds[k]))
 			}
 		}
 		c.Check(len(bad) == 0 && nAcc >= 3, "C17.3", fnKey(nz)+"|accepting-paths", p.Pos(nz.Pos()), fmt.Sprintf("%d accepting paths: 3 fields ∧ \">=\" ∧ parsed threshold ∧ known kind; kinds → %v", nAcc, kinds), strings.Join(uniqS(bad), "; "))
@@ -358,10 +365,16 @@ func typeOfTerm(t *an.Term) string {
 	return t.V.Type().String()
 }
 
+// c17Selected: condition kind -> the comparison function newZXCVBNPolicy stores for it (filled by C17.3's path analysis).
+var c17Selected = map[string]*ssa.Function{}
+
 func c174(c *an.Ctx, p *an.Prog) {
-	for _, spec := range [][2]string{{"zxcvbnConditionScore", "Score"}, {"zxcvbnConditionEntropy", "Entropy"}, {"zxcvbnConditionTime", "CrackTime"}} {
-		fn := p.Func("/cmd/whawty-auth", spec[0])
-		if !need(c, "C17.4", fn, "main."+spec[0]) {
+	for _, spec := range [][3]string{{"zxcvbnConditionScore", "Score", "score"}, {"zxcvbnConditionEntropy", "Entropy", "entropy"}, {"zxcvbnConditionTime", "CrackTime", "time"}} {
+		fn := c17Selected[spec[2]]
+		if fn == nil {
+			fn = p.Func("/cmd/whawty-auth", spec[0])
+		}
+		if !need(c, "C17.4", fn, "comparison function selected for kind "+spec[2]) {
 			continue
 		}
 		var bad []string
